@@ -398,7 +398,10 @@ def shapes(tier, seed):
         sy = [rnd.choice(v) for k, v in sorted(bykind.items())]
     for (g, tg, ct) in sy:
         nm = f"{g}/t{''.join(map(str, tg))}" + (f"c{''.join(map(str, ct))}" if ct else "")
-        out.append(Shape(f"sympy/single/{nm}", h_sympy, dict(spec=[("H", [tg[0]], []), (g, tg, ct)] if g not in ("H",) else [(g, tg, ct)],
+        # every involved qubit is first put in a superposition with a complex relative phase (H then S), so that phases
+        # kicked back on controls and the sense of rotations are visible in the final statevector
+        pre = [x for q in (list(tg) + list(ct)) for x in (("H", [q], []), ("S", [q], []))]
+        out.append(Shape(f"sympy/single/{nm}", h_sympy, dict(spec=pre + [(g, tg, ct)],
                                                           n=max(3, max(tg + ct) + 1), init_idx=None), modules=MODS))
     for i, spec in enumerate(core2[:3] if tier == "quick" else core2):
         if all(s[0] in SYMPY_OK for s in spec):
